@@ -26,6 +26,7 @@ def run(ctx: Ctx) -> Collector:
     c = Collector("R7")
     _compare_sites(ctx, c)
     _identity(ctx, c)
+    _tiers_as_identity(ctx, c)
     return c
 
 
@@ -46,7 +47,7 @@ def table_kinds(ctx: Ctx) -> Dict[Tuple[str, str], List[Tuple[FuncInfo, Event, b
     out: Dict[Tuple[str, str], List[Tuple[FuncInfo, Event, bool]]] = {}
     typer = typer_of(ctx.prog)
     from ..flow import spliced
-    for fi in ctx.prog.all_functions():
+    for fi in analysis_units(ctx.prog):
         s = spliced(ctx.prog, fi)
         for e in s.of_kind("store"):
             tgt = unalias(e.term[1], s, fi)
@@ -90,7 +91,7 @@ def _compare_sites(ctx: Ctx, c: Collector) -> None:
     kinds = table_kinds(ctx)
     nsites = 0
     from ..flow import spliced, spliceable
-    for fi in prog.all_functions():
+    for fi in analysis_units(prog):
         if fi.cls is not None and fi.cls.qualname == TI:
             continue
         if fi.parent is not None and not fi.is_async and fi.cls is None and spliceable(prog, fi.parent, fi):
@@ -176,7 +177,7 @@ def _identity(ctx: Ctx, c: Collector) -> None:
             structural = True
             why = f"@{d} generates a field-wise __eq__ (two groups with the same parent are equal)"
     uses: List[Tuple[FuncInfo, Event, str]] = []
-    for fi in prog.all_functions():
+    for fi in analysis_units(prog):
         for e, sub, env in function_sites(prog, fi):
             if sub[0] == "cmp" and sub[1] in ("==", "!="):
                 if is_cls(typer._type_of(sub[2], env), GROUP) or is_cls(typer._type_of(sub[3], env), GROUP):
@@ -200,3 +201,38 @@ def _identity(ctx: Ctx, c: Collector) -> None:
             c.bad("R9", fi.qualname, f"equality-based lookup {txt[:60]}", f"SimGroup {why}, and this lookup compares groups by equality: sibling groups are confused", ctx.loc(fi, e))
         else:
             c.ok("R9", fi.qualname, f"equality-based lookup {txt[:60]}", "SimGroup compares by identity", ctx.loc(fi, e))
+
+
+# --------------------------------------------------------------------------- R7/key
+def _tiers_as_identity(ctx: Ctx, c: Collector) -> None:
+    """A delay is (pre_length, cutoff, tiers): two delays with the same tiers and different cutoffs act
+    differently on a time (one adds to a tier, the other replaces it).  Using `interval.tiers` alone as a
+    dictionary key, set member or equality proxy identifies different delays."""
+    prog = ctx.prog
+    typer = typer_of(prog)
+    bad = 0
+    n = 0
+    for fi in analysis_units(prog):
+        if fi.cls is not None and fi.cls.qualname == TI:
+            continue
+        for e, sub, env in function_sites(prog, fi):
+            hits = []
+            if sub[0] == "idx" and sub[2][0] == "attr" and sub[2][2] == "tiers":
+                hits.append(sub[2])
+            elif sub[0] == "cmp" and sub[1] in ("in", "notin") and sub[2][0] == "attr" and sub[2][2] == "tiers":
+                hits.append(sub[2])
+            elif sub[0] == "cmp" and sub[1] in ("==", "!=") and all(x[0] == "attr" and x[2] == "tiers" for x in (sub[2], sub[3])):
+                hits += [sub[2], sub[3]]
+            elif sub[0] == "call" and sub[1][0] == "attr" and sub[1][2] in ("add", "get", "setdefault", "pop", "discard", "remove") and sub[2] and sub[2][0][0] == "attr" and sub[2][0][2] == "tiers":
+                hits.append(sub[2][0])
+            elif sub[0] == "call" and sub[1] == T.glob("hash") and sub[2] and sub[2][0][0] == "attr" and sub[2][0][2] == "tiers":
+                hits.append(sub[2][0])
+            for h in hits:
+                if is_cls(typer._type_of(h[1], env), TI):
+                    n += 1
+                    bad += 1
+                    c.bad("key", fi.qualname, f"{T.show(sub)[:60]}", f"{T.show(h)} identifies a delay by its tiers alone: delays with equal tiers and different cutoffs (a connection inside a group next to one "
+                          "between sibling groups) are taken for the same delay", ctx.loc(fi, e))
+    c.info["interval_tiers_identity_uses"] = bad
+    if not bad:
+        c.ok("key", "mosaik.*", "TieredInterval.tiers is never used as a key / equality proxy", "0 sites (every function scanned by type)", "")
